@@ -41,7 +41,7 @@ MANIFEST = {
         "its end time; the start time handed to the ScheduledOperation is "
         "start_time(operation, machine) whose value is the max of exactly the "
         "two next-available entries; replay sites forward operation and machine "
-        "of the same record in order. Not decided: numerical equality of the "
+        "of the same record in order, and a recorded history is never modified in place by reset. Not decided: numerical equality of the "
         "tracking vectors and makespan with those derived from the schedule."
     ),
     "note": "start_time's recognised shape is max(a, b) (also via locals); any other shape is ANALYSIS-ERROR, never a violation.",
